@@ -8,8 +8,10 @@ import (
 	"strings"
 
 	jlib "github.com/jsightapi/jsight-schema-go-library"
+	lbytes "github.com/jsightapi/jsight-schema-go-library/bytes"
 	liberrors "github.com/jsightapi/jsight-schema-go-library/errors"
 	"github.com/jsightapi/jsight-schema-go-library/formats/json"
+	"github.com/jsightapi/jsight-schema-go-library/fs"
 	"github.com/jsightapi/jsight-schema-go-library/notations/jschema"
 	"github.com/jsightapi/jsight-schema-go-library/notations/regex"
 	"github.com/jsightapi/jsight-schema-go-library/rules/enum"
@@ -135,6 +137,72 @@ type SchemaSpec struct {
 	// Mesh: every user type is also added to every other user type's schema
 	// object (the usage in which type schemas can resolve their own references).
 	Mesh bool `json:"mesh,omitempty"`
+	// Via selects how the schema, type, rule and document objects are constructed: 0 New(name, string),
+	// 1 New(name, []byte), 2 FromFile(fs.NewFile(name, string)), 3 New(name, bytes.Bytes),
+	// 4 FromFile(fs.NewFile(name, []byte)).
+	Via int `json:"via,omitempty"`
+}
+
+// NewSchema, NewEnum, NewRegex and NewDoc construct the library objects through construction path via.
+func NewSchema(via int, name, text string, opts ...jschema.Option) *jschema.Schema {
+	switch via {
+	case 1:
+		return jschema.New(name, []byte(text), opts...)
+	case 2:
+		return jschema.FromFile(fs.NewFile(name, text), opts...)
+	case 3:
+		return jschema.New(name, lbytes.Bytes(text), opts...)
+	case 4:
+		return jschema.FromFile(fs.NewFile(name, []byte(text)), opts...)
+	}
+	return jschema.New(name, text, opts...)
+}
+
+func NewEnum(via int, name, text string) *enum.Enum {
+	switch via {
+	case 1:
+		return enum.New(name, []byte(text))
+	case 2:
+		return enum.FromFile(fs.NewFile(name, text))
+	case 3:
+		return enum.New(name, lbytes.Bytes(text))
+	case 4:
+		return enum.FromFile(fs.NewFile(name, []byte(text)))
+	}
+	return enum.New(name, text)
+}
+
+func NewRegex(via int, name, text string) *regex.Schema {
+	switch via {
+	case 1:
+		return regex.New(name, []byte(text))
+	case 2:
+		return regex.FromFile(fs.NewFile(name, text))
+	case 3:
+		return regex.New(name, lbytes.Bytes(text))
+	case 4:
+		return regex.FromFile(fs.NewFile(name, []byte(text)))
+	}
+	return regex.New(name, text)
+}
+
+func NewDoc(via int, name, text string) jlib.Document {
+	switch via {
+	case 1:
+		return json.New(name, []byte(text))
+	case 2:
+		return json.FromFile(fs.NewFile(name, text))
+	case 3:
+		return json.New(name, lbytes.Bytes(text))
+	case 4:
+		return json.FromFile(fs.NewFile(name, []byte(text)))
+	}
+	return json.New(name, text)
+}
+
+// ValidateVia validates a fresh document constructed through path via.
+func ValidateVia(s *jschema.Schema, doc string, via int) Res {
+	return Guard(func() error { return s.Validate(NewDoc(via, "doc", doc)) })
 }
 
 // Build constructs the schema object and adds rules and types. The returned
@@ -149,10 +217,10 @@ func Build(sp SchemaSpec) (s *jschema.Schema, res Res) {
 	if sp.OptionalDef {
 		opts = append(opts, jschema.KeysAreOptionalByDefault())
 	}
-	s = jschema.New("schema", sp.Text, opts...)
+	s = NewSchema(sp.Via, "schema", sp.Text, opts...)
 	for _, t := range sp.Types {
 		if t.Kind == "enum" {
-			if err := s.AddRule(t.Name, enum.New(t.Name, t.Text)); err != nil {
+			if err := s.AddRule(t.Name, NewEnum(sp.Via, t.Name, t.Text)); err != nil {
 				return s, FromErr(err)
 			}
 		}
@@ -165,7 +233,7 @@ func Build(sp SchemaSpec) (s *jschema.Schema, res Res) {
 				if sp.OptionalDef {
 					topts = append(topts, jschema.KeysAreOptionalByDefault())
 				}
-				typeObjs[t.Name] = jschema.New(t.Name, t.Text, topts...)
+				typeObjs[t.Name] = NewSchema(sp.Via, t.Name, t.Text, topts...)
 			}
 		}
 		for _, a := range sp.Types {
@@ -187,13 +255,13 @@ func Build(sp SchemaSpec) (s *jschema.Schema, res Res) {
 			}
 			obj := typeObjs[t.Name]
 			if obj == nil {
-				obj = jschema.New(t.Name, t.Text, topts...)
+				obj = NewSchema(sp.Via, t.Name, t.Text, topts...)
 			}
 			if err := s.AddType(t.Name, obj); err != nil {
 				return s, FromErr(err)
 			}
 		case "regex":
-			if err := s.AddType(t.Name, regex.New(t.Name, t.Text)); err != nil {
+			if err := s.AddType(t.Name, NewRegex(sp.Via, t.Name, t.Text)); err != nil {
 				return s, FromErr(err)
 			}
 		}
